@@ -22,6 +22,8 @@ type ReadChannel interface {
 
 func initReadChannel() {
 	ReadChannelClass = NewClassWithOptions(ClassWithConstructor(UndefinedConstructor))
+	// headers/read_channel.elh: include Iterable::FiniteBase[V]
+	ReadChannelClass.IncludeMixin(IterableFiniteBaseMixin)
 	StdModule.AddConstantString("ReadChannel", Ref(ReadChannelClass))
 	RegisterNativeClass("Std::ReadChannel", "value.ReadChannelClass")
 }
